@@ -100,4 +100,71 @@ OpenAddPath(o) == UNION {Quads(v) : v \in CapVals(o, 69)}          \* set of <<a
 RECURSIVE Sixes(_)
 Sixes(v) == IF Len(v) < 6 THEN {} ELSE {<<N16(<<v[1], v[2]>>), N16(<<v[3], v[4]>>), N16(<<v[5], v[6]>>)>>} \cup Sixes(Drop(v, 6))
 OpenExtNH(o) == UNION {Sixes(v) : v \in CapVals(o, 5)}              \* set of <<nlri afi, nlri safi, nexthop afi>>
+
+\* ---------------------------------------------------------------------------------------
+\* UPDATE (RFC 4271 4.3; RFC 4760 MP_REACH/MP_UNREACH; RFC 7911 path identifiers; RFC 6793 AS paths)
+
+\* a prefix is [bits, bytes (ceil(bits/8) of them), pid (-1 = none)]
+PfxBytes(p, addpath) == (IF addpath THEN U32(IF p.pid < 0 THEN 0 ELSE p.pid) ELSE <<>>) \o <<p.bits>> \o p.bytes
+RECURSIVE EncPrefixes(_, _)
+EncPrefixes(ps, addpath) == IF ps = <<>> THEN <<>> ELSE PfxBytes(Head(ps), addpath) \o EncPrefixes(Tail(ps), addpath)
+
+RECURSIVE DecPrefixes(_, _)
+DecPrefixes(b, addpath) ==           \* -> [ok, ps]
+    IF b = <<>> THEN [ok |-> TRUE, ps |-> <<>>]
+    ELSE LET h == IF addpath THEN 4 ELSE 0 IN
+         IF Len(b) < h + 1 THEN [ok |-> FALSE, ps |-> <<>>]
+         ELSE LET bits == b[h + 1]
+                  n == (bits + 7) \div 8
+              IN IF Len(b) < h + 1 + n THEN [ok |-> FALSE, ps |-> <<>>]
+                 ELSE LET pid == IF addpath THEN ((b[1] % 128) * 16777216 + b[2] * 65536 + b[3] * 256 + b[4]) ELSE -1
+                          r == DecPrefixes(Drop(b, h + 1 + n), addpath)
+                      IN [ok |-> r.ok, ps |-> <<[bits |-> bits, bytes |-> SubSeq(b, h + 2, h + 1 + n), pid |-> pid]>> \o r.ps]
+
+\* path attribute TLV: extended length when the value needs it or when forced
+Attr(flags, code, val, forceExt) ==
+    IF Len(val) > 255 \/ forceExt
+    THEN <<(flags \div 32) * 32 + 16 + (flags % 16), code>> \o U16(Len(val)) \o val
+    ELSE <<(flags \div 32) * 32 + (flags % 16), code, Len(val)>> \o val
+
+RECURSIVE DecAttrs(_)
+DecAttrs(b) ==                       \* -> [ok, items: Seq([flags, code, val])]; ok = FALSE when a length overruns the block
+    IF b = <<>> THEN [ok |-> TRUE, items |-> <<>>]
+    ELSE IF Len(b) < 3 THEN [ok |-> FALSE, items |-> <<>>]
+    ELSE LET ext == (b[1] \div 16) % 2 = 1
+             h == IF ext THEN 4 ELSE 3
+         IN IF Len(b) < h THEN [ok |-> FALSE, items |-> <<>>]
+            ELSE LET ln == IF ext THEN N16(<<b[3], b[4]>>) ELSE b[3] IN
+                 IF Len(b) < h + ln THEN [ok |-> FALSE, items |-> <<>>]
+                 ELSE LET r == DecAttrs(Drop(b, h + ln))
+                      IN [ok |-> r.ok, items |-> <<[flags |-> b[1], code |-> b[2], val |-> SubSeq(b, h + 1, h + ln)]>> \o r.items]
+
+\* AS_PATH value: segments [t (1 = AS_SET, 2 = AS_SEQUENCE), asns: Seq(ASN)]
+RECURSIVE EncAsns(_, _)
+EncAsns(as, four) == IF as = <<>> THEN <<>> ELSE (IF four THEN Asn4Bytes(Head(as)) ELSE Asn2Bytes(Head(as))) \o EncAsns(Tail(as), four)
+RECURSIVE EncSegs(_, _)
+EncSegs(segs, four) == IF segs = <<>> THEN <<>> ELSE <<Head(segs).t, Len(Head(segs).asns)>> \o EncAsns(Head(segs).asns, four) \o EncSegs(Tail(segs), four)
+
+\* RFC 6793 4.2.3: reconstruct the AS path from AS_PATH (2-byte, with AS_TRANS) and AS4_PATH
+PathLen(segs) == LET F[i \in 0..Len(segs)] == IF i = 0 THEN 0 ELSE F[i-1] + (IF segs[i].t = 1 THEN 1 ELSE Len(segs[i].asns)) IN F[Len(segs)]
+\* keep the leading (PathLen(p2) - PathLen(p4)) AS numbers of p2, then append p4
+RECURSIVE TakeLeading(_, _)
+TakeLeading(segs, n) ==
+    IF n <= 0 \/ segs = <<>> THEN <<>>
+    ELSE LET s == Head(segs) IN
+         IF s.t = 1 THEN <<s>> \o TakeLeading(Tail(segs), n - 1)
+         ELSE IF Len(s.asns) <= n THEN <<s>> \o TakeLeading(Tail(segs), n - Len(s.asns))
+         ELSE <<[t |-> 2, asns |-> SubSeq(s.asns, 1, n)]>>
+MergeAsPath(p2, p4) ==
+    IF PathLen(p2) < PathLen(p4) THEN p2          \* AS4_PATH ignored
+    ELSE TakeLeading(p2, PathLen(p2) - PathLen(p4)) \o p4
+
+EncUpdateBody(wd, attrs, nlri) == U16(Len(wd)) \o wd \o U16(Len(attrs)) \o attrs \o nlri
+DecUpdateBody(b) ==                  \* RFC 4271 6.3 length checks
+    IF Len(b) < 4 THEN [ok |-> FALSE]
+    ELSE LET wl == N16(<<b[1], b[2]>>) IN
+         IF Len(b) < 4 + wl THEN [ok |-> FALSE]
+         ELSE LET al == N16(<<b[3 + wl], b[4 + wl]>>) IN
+              IF Len(b) < 4 + wl + al THEN [ok |-> FALSE]
+              ELSE [ok |-> TRUE, wd |-> SubSeq(b, 3, 2 + wl), attrs |-> SubSeq(b, 5 + wl, 4 + wl + al), nlri |-> Drop(b, 4 + wl + al)]
 =============================================================================
